@@ -1,7 +1,8 @@
 (* C02 — csync locks: grantable waiters are granted, cancelled waiters leave no trace.
    Liveness is stated as quiescence safety (DESIGN.md section 3.2): in every reachable state in
    which no internal step is enabled, no blocked caller could be granted. *)
-From Util Require Import Common.Base Common.ListLemmas CSync.RWModel CSync.RWProofs CSync.MModel CSync.MProofs CSync.MTerm.
+From Util Require Import Common.Base Common.ListLemmas CSync.RWModel CSync.RWProofs CSync.MModel CSync.MProofs CSync.MTerm CSync.RWTerm.
+From Util Require Import CSync.RWSpec CSync.MSpec CSync.MonCore CSync.RWProofsMon CSync.MProofsMon.
 
 (* the invariant behind it: a caller blocked on a still-open channel is not grantable *)
 Theorem c02_rwmutex_no_lost_wakeup : forall es,
@@ -120,3 +121,66 @@ Example c02_example_mutex_measure :
   let s := mrun [MCallLock; MSect 0; MCallLock; MSect 1; MCallLock; MSect 2; MRelease 0] in
   mmeasure s = 8 /\ mmeasure (mstep s (MSect 0)) = 4 /\ effective_run s [MSect 0; MWake 1; MWake 2; MSect 2; MSect 1].
 Proof. vm_compute. repeat split; discriminate. Qed.
+
+(* ---------------- RWMutex: internal steps terminate ----------------
+   Same statement as for the Mutex.  [rwmeasure s] = (number of calls that can still run a broadcasting section: release()
+   entered, or a cancelled writer that has not returned) * (2 * calls + 2) + sum of per-call weights; every internal event
+   (a critical section of a caller at a gate, a wake-up, a give-up) that changes the state strictly decreases it. *)
+Theorem c02_rwmutex_internal_step_decreases : forall es e,
+  let s := run es in
+  rw_internal e = true -> step s e <> s -> rwmeasure (step s e) < rwmeasure s.
+Proof. intros es e s. apply rw_internal_step_decreases. exact (run_inv2 es). Qed.
+Print Assumptions c02_rwmutex_internal_step_decreases.
+
+Theorem c02_rwmutex_internal_steps_terminate : forall es is,
+  rw_effective_run (run es) is -> length is <= rwmeasure (run es).
+Proof. intros es is. apply rw_internal_steps_terminate; [exact (run_inv es) | exact (run_inv2 es)]. Qed.
+Print Assumptions c02_rwmutex_internal_steps_terminate.
+
+Theorem c02_rwmutex_stuck_is_quiescent : forall s,
+  (forall a, step s (Sect a) = s /\ step s (Wake a) = s /\ step s (CancelWake a) = s) -> quiescent s = true.
+Proof. exact rw_stuck_is_quiescent. Qed.
+Print Assumptions c02_rwmutex_stuck_is_quiescent.
+
+(* non-vacuity: a read holder, a blocked writer and a blocked reader; the holder enters release(): the unlocking section
+   broadcasts, both waiters wake, the writer is granted, the reader blocks again *)
+Example c02_example_rwmutex_measure :
+  let s := run [CallLock false; Sect 0; CallLock true; Sect 1; CallLock false; Sect 2; Release 0] in
+  rwmeasure s = 8 /\ rwmeasure (step s (Sect 0)) = 4 /\ rw_effective_run s [Sect 0; Wake 1; Wake 2; Sect 2; Sect 1].
+Proof. vm_compute. repeat split; discriminate. Qed.
+
+(* ---------------- the monitors accept the models ----------------
+   The quiescence / cancellation / writer-preference clauses (2,1)-(2,4) of the monitors are evaluated by the same function
+   as the exclusion clauses of C01; the theorem (proved in RWProofsMon.v / MProofsMon.v, see Props_C01.v) covers all of
+   them: for every event list the checkers' monitors report nothing on the model's own observations. *)
+Theorem c02_rwmutex_model_satisfies_monitors : forall evs,
+  monitor (lmon mon (@length mact)) 0 ([], lockers0) [] evs
+          (run_obs (lstep hstep (fun h => length (hmap h))) (hinit, lockers0) evs) = [].
+Proof. exact model_satisfies_monitors. Qed.
+Print Assumptions c02_rwmutex_model_satisfies_monitors.
+
+Theorem c02_rwmutex_model_run_check_clean : forall cfg evs,
+  length (run_obs (lstep hstep (fun h => length (hmap h))) (hinit, lockers0) evs) = length evs ->
+  run_check_rwmutex cfg evs (run_obs (lstep hstep (fun h => length (hmap h))) (hinit, lockers0) evs) = [].
+Proof. intros cfg evs Hl. exact (model_run_check_clean evs Hl cfg). Qed.
+Print Assumptions c02_rwmutex_model_run_check_clean.
+
+Theorem c02_mutex_model_satisfies_monitors : forall evs,
+  monitor (lmon mon_mutex (@length mact)) 0 ([], lockers0) [] evs
+          (run_obs (lstep mhstep (fun h => length (mhmap h))) (mhinit, lockers0) evs) = [].
+Proof. exact mutex_model_satisfies_monitors. Qed.
+Print Assumptions c02_mutex_model_satisfies_monitors.
+
+Theorem c02_mutex_model_run_check_clean : forall cfg evs,
+  length (run_obs (lstep mhstep (fun h => length (mhmap h))) (mhinit, lockers0) evs) = length evs ->
+  run_check_mutex cfg evs (run_obs (lstep mhstep (fun h => length (mhmap h))) (mhinit, lockers0) evs) = [].
+Proof. intros cfg evs Hl. exact (mutex_model_run_check_clean evs Hl cfg). Qed.
+Print Assumptions c02_mutex_model_run_check_clean.
+
+(* non-vacuity: the D1 schedule (a waiting writer gives up behind a read holder while a reader waits behind it) is accepted
+   by the model completely, the reader ends up granted, and the checker is silent on the model's observations *)
+Example c02_example_model_history :
+  let evs := [[1; 0]; [3; 0]; [1; 1]; [3; 1]; [1; 0]; [3; 2]; [4; 1]; [3; 1]; [3; 2]]%N in
+  let obss := run_obs (lstep hstep (fun h => length (hmap h))) (hinit, lockers0) evs in
+  length obss = length evs /\ last obss [] = [3; 4; 3]%N /\ run_check_rwmutex [] evs obss = [].
+Proof. vm_compute. repeat split; reflexivity. Qed.
